@@ -3,7 +3,7 @@ from props import _passes
 from props._passes import mk_pass  # noqa
 
 PROPERTY = "C03"
-LEVEL = "translation_validation"
+LEVEL = "model_checking"
 JOB_TIMEOUT = {"quick": 400, "thorough": 1500}
 BOUNDS = {"quick": {"programs": "corpus/cprogs.py (C functions through the real front end, x86_64 type sizes)",
                     "configs": "each of 9 passes alone, optimize level 2, one 4-pass sequence; constants symbolic for value-dependent passes",
